@@ -168,6 +168,14 @@ M("c04.toy.dsa.verify.modq", "C04", DSAPY, "v = (pow(g, u1, p) * pow(y, u2, p) %
 M("c04.toy.dsa.sign.r", "C04", DSAPY, "r = pow(g, k, p) % q  # r = (g**k mod p) mod q", "r = pow(g, k, q) % p", "K-pw|dsa.toy.sign")
 M("c04.twin.toy.ecdsa.verify", "C04", ECCPY, "return (point1 + point2).x % order == rs[0]", "v = (point2 + point1).x % order\n        return v == rs[0]", twin=True)
 
+PRIMPY = "lib/Crypto/Math/Primality.py"
+M("c14.prim.mr.minus_one", "C14", PRIMPY, "        if z in (one, minus_one):\n            continue", "        if z == one:\n            continue", "K-pw|primality.miller-rabin")
+M("c14.prim.mr.loop", "C14", PRIMPY, "            if z == one:\n                return COMPOSITE\n        else:\n            return COMPOSITE", "            if z == one:\n                return COMPOSITE", "K-pw|primality")
+M("c14.prim.lucas.halve", "C14", PRIMPY, "        if V_temp.is_odd():\n            V_temp += candidate\n        V_temp >>= 1", "        V_temp >>= 1", "K-pw|primality.lucas")
+M("c14.prim.lucas.delta", "C14", PRIMPY, "    K = candidate + 1\n", "    K = candidate - 1\n", "K-pw|primality.lucas")
+M("c14.prim.lucas.jacobi0", "C14", PRIMPY, "        if js == 0:\n            return COMPOSITE\n", "        if js == 0:\n            continue\n", "K-pw|primality.lucas")
+M("c14.prim.sieve.literal", "C14", "lib/Crypto/Util/number.py", " 521,    523,    541,", " 521,    523,    539,", "K|primality.sieve")
+M("c14.prim.twin.lucas", "C14", PRIMPY, "    if U_i == 0:\n        return PROBABLY_PRIME\n    return COMPOSITE", "    if U_i != 0:\n        return COMPOSITE\n    return PROBABLY_PRIME", twin=True)
 DSSPY = "lib/Crypto/Signature/DSS.py"
 M("c04.rfc6979.assert.revert", "C04", DSSPY, "assert 0 <= int_mod_q < self._order", "assert 0 < int_mod_q < self._order", "K-pw|rfc6979.conversions")
 M("c04.rfc6979.bits2int.shift", "C04", DSSPY, "if b_len > q_len:", "if b_len >= q_len + 8:", "K-pw|rfc6979.conversions")
